@@ -543,6 +543,11 @@ func (s *Stage) Recover() {
 				}
 			} else if _, err = os.Stat(base); os.IsNotExist(err) {
 				// Not found
+				if s.recoverMoved(cmp, base) {
+					s.logInfo("Found interrupted move:", cmp.Name)
+					finalize = append(finalize, cmp)
+					return nil
+				}
 				if err = os.Remove(path); err != nil {
 					s.logError("Failed to remove orphaned companion:",
 						path, err.Error())
@@ -598,6 +603,26 @@ func (s *Stage) Recover() {
 		close(ch)
 		wg.Wait()
 	}
+}
+
+// recoverMoved looks for a validated file whose move to the target directory was
+// interrupted between the two renames of fileutil.Move: it is then found under
+// its lock name in the target directory while only the companion is left on
+// the stage. The file is taken back so that it is finalized again.
+func (s *Stage) recoverMoved(cmp *sts.Partial, base string) bool {
+	targetName := cmp.Name
+	if cmp.Renamed != "" {
+		targetName = cmp.Renamed
+	}
+	lockPath := filepath.Join(s.targetDir, targetName) + fileutil.LockExt
+	if hash, err := fileutil.FileMD5(lockPath); err != nil || hash != cmp.Hash {
+		return false
+	}
+	if err := os.Rename(lockPath, base+waitExt); err != nil {
+		s.logError("Failed to take back interrupted move:", lockPath, err.Error())
+		return false
+	}
+	return true
 }
 
 func (s *Stage) CleanNow() {
